@@ -20,7 +20,7 @@ theorem stepB {env : Env} {file : AFile} {G : List String} {P : Prog} {F : GFile
 
 theorem sim0 {env : Env} {file : AFile} {G : List String} {P : Prog} {F : GFile} : SimAt env file G P F 0 := by
   refine ⟨?_, ?_, ?_, ?_, ?_, ?_, ?_, ?_, ?_, ?_⟩
-  · intro g _ _ η vs gvs w gw _ _ _; rw [Sem.apply]; trivial
+  · intro g _ _ η vs gvs w gw _ _ _ _; rw [Sem.apply]; trivial
   · intro b ps r _ _ η vs gvs w gw _ _; rw [Sem.apply]; trivial
   · intro c η Γ K ρ w gρ gw Bad _ _ _ _ _ _ _ _ _; rw [Sem.eval]; trivial
   · intro m st e η Γ K ρ w gρ gw Bad _ _ _ _ _ _ _ _ _; rw [Sem.eval]; trivial
@@ -142,7 +142,7 @@ theorem tail_simple {env : Env} {η : Hp} {file : AFile} {G : List String} {P : 
     (hv : SimV env file G P F (n + 1)) (m : Mode) (st : St) (c : CExpr) (Γ : Ctx) (K : KCtx) (ρ : Sem.Env) (w : World)
     (gρ : GEnv) (gw : GWorld) (Bad : List String) (hctl : isCtl c = false) (hgoc : isGoC c = false)
     (hfrag : fragC env file G Γ K c = true) (hrel : EnvRel env η Γ ρ gρ) (hkrel : KRel K ρ) (hw : WRel env η w gw)
-    (hgood : ∀ y, y ∈ keys gρ → ¬ y ∈ Bad) (htgt : TgtOK m Γ gρ c.annTy) (hus : "_" ∈ Bad) (hfx : FCtx file G Bad η)
+    (hgood : ∀ y, y ∈ keys gρ → ¬ y ∈ Bad) (htgt : TgtOK m Γ gρ c.annTy) (hus : "_" ∈ Bad) (hfx : FCtx env file G Bad η)
     (hcal : ∀ x, x ∈ calleesC (Γ.map (·.1)) c → x ∈ Bad) :
     Concl env η F (compileSimple env m c) m gρ gw c.annTy (Sem.eval (n + 1) P ρ w c.toExpr) := by
   have hV := hv c η Γ K ρ w gρ gw Bad hctl hgoc hfrag hrel hkrel hw hgood hfx hcal
@@ -214,8 +214,26 @@ theorem tail_simple {env : Env} {η : Hp} {file : AFile} {G : List String} {P : 
       | ite c t e ty => simp [isCtl] at hctl
       | «while» c b ty => simp [isCtl] at hctl
       | matchE s arms d ty => simp [isCtl] at hctl
-      | toDyn tr forTy e ty => simp [fragC] at hfrag
-      | dynCall tr m recv args ty => simp [fragC] at hfrag
+      | toDyn tr forTy e ty =>
+        exfalso
+        simp only [fragC, toDynOK, Bool.and_eq_true, CExpr.annTy] at hfrag hunit
+        have := scalarEq_eq hfrag.1.2
+        rw [hunit] at this; cases this
+      | dynCall tr m recv args ty =>
+        simp only [compileSimple]
+        revert hV
+        cases hres : Sem.eval (n + 1) P ρ w (CExpr.dynCall tr m recv args ty).toExpr with
+        | ok v w' =>
+          rintro ⟨η1, hle1, gv, gw', he, h3, h4, h5, _⟩
+          exact ⟨η1, hle1, [], gv, gw', block_single (stmt_expr he) (fun _ _ _ h => by injection h with h; injection h with _ h; exact h.symm),
+            h3, h4, h5, fun y hy => by cases hy⟩
+        | fail fl w' =>
+          cases fl with
+          | panic k =>
+            rintro ⟨η1, hle1, gw', he, h5, _⟩
+            exact ⟨η1, hle1, gw', block_single (stmt_expr_fail he) (fun _ _ _ h => by cases h), h5⟩
+          | fuel => intro _; trivial
+          | stuck s => intro _; trivial
       | go e ty => simp [isGoC] at hgoc
       | imm i => simp [pureC] at hp
       | un op e ty => simp [pureC] at hp
@@ -255,7 +273,7 @@ theorem tail_go {env : Env} {η : Hp} {file : AFile} {G : List String} {P : Prog
     (hg : SimG env file G P F (n + 1)) (m : Mode) (e : Imm) (ty : Ty) (Γ : Ctx) (K : KCtx) (ρ : Sem.Env) (w : World)
     (gρ : GEnv) (gw : GWorld) (Bad : List String)
     (hfrag : fragC env file G Γ K (.go e ty) = true) (hrel : EnvRel env η Γ ρ gρ) (hw : WRel env η w gw)
-    (hgood : ∀ y, y ∈ keys gρ → ¬ y ∈ Bad) (htgt : TgtOK m Γ gρ ty) (hus : "_" ∈ Bad) (hfx : FCtx file G Bad η)
+    (hgood : ∀ y, y ∈ keys gρ → ¬ y ∈ Bad) (htgt : TgtOK m Γ gρ ty) (hus : "_" ∈ Bad) (hfx : FCtx env file G Bad η)
     (hcal : ∀ x, x ∈ calleesC (Γ.map (·.1)) (.go e ty) → x ∈ Bad) :
     Concl env η F (compileSimple env m (.go e ty)) m gρ gw ty (Sem.eval (n + 1) P ρ w (CExpr.go e ty).toExpr) := by
   have hG := hg e ty η Γ K ρ w gρ gw Bad hfrag hrel hw hgood hfx hcal
@@ -306,7 +324,7 @@ theorem tail_ite {env : Env} {η : Hp} {file : AFile} {G : List String} {P : Pro
     (hl : Link env file G P F) (ha : SimA env file G P F n) (m : Mode) (st : St) (c : Imm) (t e : AExpr) (ty : Ty) (Γ : Ctx) (K : KCtx) (ρ : Sem.Env)
     (w : World) (gρ : GEnv) (gw : GWorld) (Bad : List String)
     (hfrag : fragC env file G Γ K (.ite c t e ty) = true) (hrel : EnvRel env η Γ ρ gρ) (hkrel : KRel K ρ) (hw : WRel env η w gw)
-    (hinv : GInv Bad (compileTail env m st (.ite c t e ty)).1 gρ) (htgt : TgtOK m Γ gρ ty) (hus : "_" ∈ Bad) (hfx : FCtx file G Bad η)
+    (hinv : GInv Bad (compileTail env m st (.ite c t e ty)).1 gρ) (htgt : TgtOK m Γ gρ ty) (hus : "_" ∈ Bad) (hfx : FCtx env file G Bad η)
     (hcal : ∀ x, x ∈ calleesC (Γ.map (·.1)) (.ite c t e ty) → x ∈ Bad) :
     Concl env η F (compileTail env m st (.ite c t e ty)).1 m gρ gw ty (Sem.eval (n + 1) P ρ w (CExpr.ite c t e ty).toExpr) := by
   simp only [fragC, Bool.and_eq_true] at hfrag
@@ -362,7 +380,7 @@ theorem tail_while {env : Env} {η : Hp} {file : AFile} {G : List String} {P : P
     (hL : SimL env file G P F (n + 1)) (m : Mode) (st : St) (c b : AExpr) (ty : Ty) (Γ : Ctx) (K : KCtx) (ρ : Sem.Env)
     (w : World) (gρ : GEnv) (gw : GWorld) (Bad : List String)
     (hfrag : fragC env file G Γ K (.while c b ty) = true) (hrel : EnvRel env η Γ ρ gρ) (hkrel : KRel K ρ) (hw : WRel env η w gw)
-    (hinv : GInv Bad (compileTail env m st (.while c b ty)).1 gρ) (htgt : TgtOK m Γ gρ ty) (hus : "_" ∈ Bad) (hfx : FCtx file G Bad η)
+    (hinv : GInv Bad (compileTail env m st (.while c b ty)).1 gρ) (htgt : TgtOK m Γ gρ ty) (hus : "_" ∈ Bad) (hfx : FCtx env file G Bad η)
     (hcal : ∀ x, x ∈ calleesC (Γ.map (·.1)) (.while c b ty) → x ∈ Bad) :
     Concl env η F (compileTail env m st (.while c b ty)).1 m gρ gw ty (Sem.eval (n + 1) P ρ w (CExpr.while c b ty).toExpr) := by
   simp only [fragC, Bool.and_eq_true] at hfrag
@@ -490,7 +508,7 @@ theorem tail_match {env : Env} {η : Hp} {file : AFile} {G : List String} {P : P
     (m : Mode) (st : St) (s : Imm) (arms : List AArm) (d : ADflt) (ty : Ty) (Γ : Ctx) (K : KCtx) (ρ : Sem.Env)
     (w : World) (gρ : GEnv) (gw : GWorld) (Bad : List String)
     (hfrag : fragC env file G Γ K (.matchE s arms d ty) = true) (hrel : EnvRel env η Γ ρ gρ) (hkrel : KRel K ρ) (hw : WRel env η w gw)
-    (hinv : GInv Bad (compileTail env m st (.matchE s arms d ty)).1 gρ) (htgt : TgtOK m Γ gρ ty) (hus : "_" ∈ Bad) (hfx : FCtx file G Bad η)
+    (hinv : GInv Bad (compileTail env m st (.matchE s arms d ty)).1 gρ) (htgt : TgtOK m Γ gρ ty) (hus : "_" ∈ Bad) (hfx : FCtx env file G Bad η)
     (hcal : ∀ x, x ∈ calleesC (Γ.map (·.1)) (.matchE s arms d ty) → x ∈ Bad) :
     Concl env η F (compileTail env m st (.matchE s arms d ty)).1 m gρ gw ty
       (Sem.eval (n + 1) P ρ w (CExpr.matchE s arms d ty).toExpr) := by
